@@ -169,7 +169,7 @@ package roundrobin
 //@   ensures one_outcome: calls(rb.next.Next.ServeHTTP) + calls(rb.errHandler.ServeHTTP) == 1
 //@   ensures error_only_without_server: calls(rb.errHandler.ServeHTTP) == 1 ==> calls(rb.next.NextServer) == 1 && callres(rb.next.NextServer, 0, 1) != nil
 //@   at_call rb.next.Next.ServeHTTP routed_to_selection: (calls(rb.next.NextServer) == 1 && callres(rb.next.NextServer, 0, 1) == nil && arg1.URL == callres(rb.next.NextServer, 0, 0)) || (calls(rb.next.NextServer) == 0 && callres(GetBackend, 0, 1) && sameID(arg1.URL, callres(GetBackend, 0, 0)))
-//@   at_call rb.next.Next.ServeHTTP fresh_url: fresh(arg1.URL)
+//@   at_call rb.next.Next.ServeHTTP {C02,C09,C11,C20} fresh_url: fresh(arg1.URL)
 
 
 //@ type codeMeter
